@@ -236,7 +236,7 @@ def config_to_dict(cp):
 
 
 def run_solve(form_list, requested, file_inputs, answer=None, schedule=None, instrument=True,
-              layout=None, keep_solver=False, store=None):
+              layout=None, keep_solver=False, store=None, field_names=None):
     """One execution of the real solver.
     answer: None (no prompt function) or callable(input_obj, needed_by) -> string | None (refuse)
     """
@@ -273,7 +273,7 @@ def run_solve(form_list, requested, file_inputs, answer=None, schedule=None, ins
     r.verdict = None
     try:
         try:
-            r.verdict = s.solve(list(requested))
+            r.verdict = s.solve(list(requested), list(field_names)) if field_names else s.solve(list(requested))
         finally:
             hsolver._verif_key = None
     except RecursionError as e:
